@@ -106,4 +106,47 @@ theorem decimal_constant_reads (d0 : Nat) (ds : S) (sfx : List Nat) (r : S)
     hsw 94 (by decide), hsw 38 (by decide), hsw 124 (by decide), hsw 126 (by decide), hsw 33 (by decide), hsw 61 (by decide),
     hsw 60 (by decide), hsw 62 (by decide), hsw 44 (by decide), Bool.false_eq_true, if_false, n76, n117, n85, n82, Bool.or_self, hnid, h0, if_true, hnum]
 
+/-- what follows the digits of an integer constant: the head of `suffix ++ rest` is no hexadecimal digit, period or binary-exponent letter -/
+theorem after_digits_head (sfx : List Nat) (r : S) (hs : sfx ∈ intSuffixes) (hr : isWordTail (hd r) = false) (hdot : sfx = [] → hd r ≠ 46) :
+    isHexDigit (hd (asS sfx ++ r)) = false ∧ hd (asS sfx ++ r) ≠ 46 ∧ hd (asS sfx ++ r) ≠ 112 ∧ hd (asS sfx ++ r) ≠ 80 := by
+  have hrr : isHexDigit (hd r) = false ∧ hd r ≠ 112 ∧ hd r ≠ 80 := by
+    refine ⟨?_, ?_, ?_⟩
+    · cases h : isHexDigit (hd r) with
+      | false => rfl
+      | true =>
+        exfalso
+        simp only [isHexDigit, isDigit, Bool.or_eq_true, Bool.and_eq_true, decide_eq_true_eq] at h
+        simp only [isWordTail, isAlnum, isAlpha, isDigit, Bool.or_eq_false_iff, Bool.and_eq_false_iff, decide_eq_false_iff_not, beq_eq_false_iff_ne] at hr
+        omega
+    · intro h; rw [h] at hr; simp [isWordTail, isAlnum, isAlpha, isDigit] at hr
+    · intro h; rw [h] at hr; simp [isWordTail, isAlnum, isAlpha, isDigit] at hr
+  simp only [intSuffixes, List.mem_cons, List.not_mem_nil, or_false] at hs
+  rcases hs with rfl | rfl | rfl | rfl | rfl | rfl | rfl | rfl | rfl | rfl | rfl | rfl | rfl | rfl | rfl | rfl | rfl | rfl | rfl | rfl | rfl | rfl | rfl
+  · simpa [asS] using ⟨hrr.1, hdot rfl, hrr.2.1, hrr.2.2⟩
+  all_goals simp [asS, asS.asciiCp', isHexDigit, isDigit]
+
+/-- **6.4.4.1, hexadecimal constants**: `0x` / `0X`, hexadecimal digits, a suffix (or none), up to a character that does not continue a word -/
+theorem hex_constant_reads (x : Nat) (hx : x = 120 ∨ x = 88) (hs : S) (sfx : List Nat) (r : S)
+    (hhs : ∀ c ∈ hs, isHexDigit c.c = true) (hsf : sfx ∈ intSuffixes) (hr : isWordTail (hd r) = false) (hdot : sfx = [] → hd r ≠ 46) :
+    tokenAt 48 ((⟨x, [x]⟩ : Cp) :: (hs ++ (asS sfx ++ r))) = { kind := .IntegerConstantToken, rest := r } := by
+  obtain ⟨h1, h2, h3, h4⟩ := after_digits_head sfx r hsf hr hdot
+  have hdw := dw_append_stop isHexDigit hs (asS sfx ++ r) hhs h1
+  have hnum : number 48 ((⟨x, [x]⟩ : Cp) :: (hs ++ (asS sfx ++ r))) = (Kind.IntegerConstantToken, r) := by
+    unfold number
+    have b46 : (hd (asS sfx ++ r) == 46) = false := by simpa using h2
+    have b112 : (hd (asS sfx ++ r) == 112) = false := by simpa using h3
+    have b80 : (hd (asS sfx ++ r) == 80) = false := by simpa using h4
+    rcases hx with rfl | rfl <;> simp [hdw, b46, b112, b80, intTail_reads sfx r hsf hr]
+  have hsw := digit_not_switch 48 (by decide)
+  unfold tokenAt
+  simp only [hsw 34 (by decide), hsw 39 (by decide), hsw 123 (by decide), hsw 125 (by decide), hsw 91 (by decide), hsw 93 (by decide),
+    hsw 35 (by decide), hsw 40 (by decide), hsw 41 (by decide), hsw 59 (by decide), hsw 58 (by decide), hsw 46 (by decide),
+    hsw 63 (by decide), hsw 43 (by decide), hsw 45 (by decide), hsw 42 (by decide), hsw 47 (by decide), hsw 37 (by decide),
+    hsw 94 (by decide), hsw 38 (by decide), hsw 124 (by decide), hsw 126 (by decide), hsw 33 (by decide), hsw 61 (by decide),
+    hsw 60 (by decide), hsw 62 (by decide), hsw 44 (by decide), Bool.false_eq_true, if_false, hnum]
+  have e1 : (48 == 76 || 48 == 117 || 48 == 85 || 48 == 82) = false := by decide
+  have e2 : isIdStart 48 = false := by decide
+  have e3 : isDigit 48 = true := by decide
+  simp only [e1, e2, e3, Bool.false_eq_true, if_false, if_true]
+
 end PsycheModel.Lex
